@@ -1,0 +1,84 @@
+package git
+
+import (
+	"bytes"
+	"os"
+
+	"github.com/go-git/go-git/v6/config"
+	"github.com/go-git/go-git/v6/plumbing"
+	"github.com/go-git/go-git/v6/plumbing/filemode"
+	"github.com/go-git/go-git/v6/plumbing/format/index"
+)
+
+// setIndex writes idx after making it safe against the "racy git" problem.
+//
+// Status trusts an entry's stat data (size, mtime, mode) instead of hashing
+// the file, unless the file's mtime is not older than the index file itself.
+// That exception only covers a modification made in the timestamp tick in
+// which the index was last written. Writing the index again later moves that
+// window forward and leaves behind any entry whose file was modified, without
+// changing its size, in the same tick in which its stat data was recorded:
+// the entry now looks clean for good. Like git (ce_smudge_racily_clean_entry
+// in read-cache.c), every entry that is racy with respect to the index as it
+// was loaded is therefore compared by content before the index is written,
+// and if the file differs the recorded size is set to zero so that the
+// metadata never matches again until the entry is really refreshed.
+//
+// Reference: https://git-scm.com/docs/racy-git
+func (w *Worktree) setIndex(idx *index.Index) error {
+	w.smudgeRacilyCleanEntries(idx)
+	return w.r.Storer.SetIndex(idx)
+}
+
+func (w *Worktree) smudgeRacilyCleanEntries(idx *index.Index) {
+	if idx.ModTime.IsZero() {
+		// No index file was read: every entry has just been recorded.
+		return
+	}
+
+	var cfg *config.Config
+	for _, e := range idx.Entries {
+		if e.Size == 0 || e.ModifiedAt.IsZero() || e.ModifiedAt.Before(idx.ModTime) {
+			continue
+		}
+		if e.Mode == filemode.Submodule || e.SkipWorktree || e.IntentToAdd {
+			continue
+		}
+
+		fi, err := w.filesystem.Lstat(e.Name)
+		if err != nil {
+			continue
+		}
+		mode, err := filemode.NewFromOSFileMode(fi.Mode())
+		if err != nil || mode != e.Mode || uint32(fi.Size()) != e.Size || !fi.ModTime().Equal(e.ModifiedAt) {
+			// The stat data already tells the file and the entry apart.
+			continue
+		}
+
+		if cfg == nil {
+			if cfg, err = w.r.Config(); err != nil {
+				return
+			}
+		}
+		h, err := w.hashWorktreeFile(cfg, e.Name, fi)
+		if err != nil || h == e.Hash {
+			continue
+		}
+		e.Size = 0
+	}
+}
+
+// hashWorktreeFile computes the blob id Add would store for the file.
+func (w *Worktree) hashWorktreeFile(cfg *config.Config, path string, fi os.FileInfo) (plumbing.Hash, error) {
+	var buf bytes.Buffer
+	var err error
+	if fi.Mode()&os.ModeSymlink != 0 {
+		err = w.fillEncodedObjectFromSymlink(&buf, path, fi)
+	} else {
+		err = w.fillEncodedObjectFromFile(cfg, &buf, path, fi)
+	}
+	if err != nil {
+		return plumbing.ZeroHash, err
+	}
+	return plumbing.FromObjectFormat(cfg.Extensions.ObjectFormat).Compute(plumbing.BlobObject, buf.Bytes())
+}
